@@ -20,8 +20,9 @@ import json, os, random, re, shutil, subprocess, sys, time
 from multiprocessing import Pool
 
 HERE = os.path.dirname(os.path.dirname(os.path.abspath(__file__)))
-REPO = "/repo"
 BASE = os.environ.get("MS_BASE", "/var/tmp/ms")
+# the sweep works on a snapshot of /repo taken when the mutants were generated, so that /repo can move on while it runs
+REPO = os.path.join(BASE, "pristine") if os.path.isdir(os.path.join(BASE, "pristine")) else "/repo"
 SRC_FILES = ["src/read.rs", "src/write.rs", "src/types.rs", "src/spec.rs", "src/crc32.rs", "src/zipcrypto.rs", "src/aes.rs", "src/aes_ctr.rs",
              "src/compression.rs", "src/cp437.rs", "src/result.rs", "src/read/stream.rs", "src/unstable.rs"]
 
